@@ -310,3 +310,53 @@ func VHarnessServerFaults() {
 		v.Reach("no-failure")
 	}
 }
+
+type vhJState struct {
+	Y       *string `json:"Y"`
+	State   *string `json:"state"`
+	Witness *string `json:"witness"`
+}
+type vhJStates struct {
+	States []vhJState `json:"states"`
+}
+
+// C20: POST /v1/checkstate transports the mint's decision: one entry per requested Y, in order, the state as its NUT-07
+// string and the witness a spent or pending proof was presented with
+func VHarnessServerCheckstate() {
+	env := vhNewEnv(1)
+	ms := &MintServer{mint: env.m, cache: NewCache()}
+	raw := env.db.VhRaw()
+	v.SqlSymRows(raw, "proofs", 1)
+	v.SqlSymRows(raw, "pending_proofs", 1)
+	n := v.Int("nQ", 1, 2)
+	ys := make([]string, n)
+	for i := range ys {
+		ys[i] = v.Str(fmt.Sprintf("y%d", i))
+	}
+	want, werr := env.m.ProofsStateCheck(ys)
+	body, _ := json.Marshal(map[string]any{"Ys": ys})
+	status, resp := vhDo(ms.tokenStateCheck, "POST", "/v1/checkstate", nil, body)
+	if werr != nil {
+		v.Assert(status == 400, "C20 a refused state check answers 400")
+		v.Reach("checkstate-400")
+		return
+	}
+	v.Assert(status == 200, "C20 a successful state check answers 200")
+	var r vhJStates
+	v.Assert(v.And(json.Unmarshal(resp, &r) == nil, len(r.States) == n), "C20 checkstate response is {states:[..]} with one entry per requested Y")
+	if len(r.States) == n {
+		for i := range want {
+			st := r.States[i]
+			v.Assert(v.And(st.Y != nil, st.State != nil), "C20 every state entry carries Y and state as strings")
+			if st.Y != nil && st.State != nil {
+				v.Assert(v.And(*st.Y == want[i].Y, *st.State == want[i].State.String()), "C20 the entry transports the Y and the NUT-07 state string of the mint's decision, in request order")
+				got := ""
+				if st.Witness != nil {
+					got = *st.Witness
+				}
+				v.Assert(got == want[i].Witness, "C20 the entry transports the witness the mint reports for a spent or pending proof")
+			}
+		}
+	}
+	v.Reach("checkstate-200")
+}
